@@ -19,6 +19,10 @@ use std::rc::Rc;
 pub struct Rec {
     /// every validity query and its answer, in order
     pub vlog: Vec<(Vec<f64>, bool)>,
+    /// for each entry of `vlog`: the value of the core's motion-check counter when the query was
+    /// made (queries of one check_motion call share a value; queries made outside any motion
+    /// check carry the value of the last one)
+    pub vmotion: Vec<u64>,
     /// every state handed out by `sample_uniform`, in order
     pub samples: Vec<Vec<f64>>,
     /// every state handed out by `sample_goal`, in order
@@ -205,6 +209,7 @@ impl<K: Kind> StateValidityChecker<K::S> for WChecker<K> {
                 .any(|(c, r)| self.space.distance(s, c) <= *r);
         let mut r = self.rec.borrow_mut();
         r.vlog.push((v, ans));
+        r.vmotion.push(oxmpl::verif::motion_checks());
         if r.vlog.len() > r.query_cap && !r.cap_hit {
             r.cap_hit = true;
             oxmpl::verif::set_budget(Some(0));
